@@ -249,6 +249,8 @@ def run_sequence(c, tmp, rng, idx):
             elif kind == "add_ds":
                 _, who, a, b, v, pol, sync = op
                 ds = runner(v).run_combos({"a": a, "b": b}, verbosity=0)
+                if rng.random() < 0.3:
+                    ds = ds["out"]              # "new_ds : xarray.Dataset or xarray.DataArray"
                 hs[who].add_ds(ds, overwrite=pol, sync=sync, **ek)
             elif kind == "save_merge":
                 _, a, b, v, pol = op
